@@ -111,7 +111,7 @@ impl Prop for Values {
         "values"
     }
     fn cases(&self, tier: Tier) -> u64 {
-        tier.pick(500_000, 12_000_000)
+        tier.pick(500_000, 4_000_000)
     }
     fn strategy(&self, _tier: Tier) -> BoxedStrategy<ValuesCase> {
         (
@@ -293,7 +293,7 @@ impl Prop for HistoryUpdates {
         "history-updates"
     }
     fn cases(&self, tier: Tier) -> u64 {
-        tier.pick(100_000, 2_400_000)
+        tier.pick(100_000, 800_000)
     }
     fn strategy(&self, tier: Tier) -> BoxedStrategy<History> {
         let shape = HistoryShape::default_for(tier);
